@@ -51,7 +51,7 @@ func memberCapacity(t reflect.Type) int {
 		if t.Field(ln).Type.Kind() == reflect.Uint8 {
 			return 255
 		}
-		return 1500 // uint16 length; capped so that whole messages stay small
+		return 65535 // uint16 length (LV-E / TLV-E)
 	}
 	if octet >= 0 && t.Field(octet).Type.Kind() == reflect.Array {
 		return t.Field(octet).Type.Len()
@@ -69,6 +69,22 @@ func fillMember(r *rand.Rand, v reflect.Value, mem nasdesc.Member, n int) {
 	}
 	if ln >= 0 {
 		capn := memberCapacity(t)
+		if (n < 0 || n > capn) && capn > 255 && r.Intn(3) != 0 {
+			// two-octet lengths: mostly short, sometimes around the sizes where buffers and 8/16-bit arithmetic change
+			// behaviour, rarely the maximum (whole messages stay affordable)
+			switch r.Intn(24) {
+			case 0:
+				n = capn
+			case 1:
+				n = capn - 1
+			case 2, 3:
+				n = pick(r, 255, 256, 257, 2047, 2048, 2049, 4095, 4096, 4097, 32767, 32768)
+			case 4:
+				n = 1500 + r.Intn(3000)
+			default:
+				n = r.Intn(41)
+			}
+		}
 		if n < 0 || n > capn {
 			switch r.Intn(6) {
 			case 0:
